@@ -560,6 +560,15 @@ Section Read.
     destruct (c_snd C b) as [[st rd]|]; [|reflexivity]. cbn. apply bind_ok.
   Qed.
 
+  (* sph and file: dtype is handed to the decoder, it is not a second-stage cast
+     (sph: element type of the output buffer, see C12; file: the type the raw
+     bytes are read as, float64 when absent) *)
+  Theorem dtype_passed_to_decoder_l : forall b dtype key d,
+    read (Stream b) dtype key (Some [115;112;104]) = c_sph C b dtype
+    /\ read (Stream b) (Some d) key (Some [102;105;108;101]) = c_raw C b d
+    /\ read (Stream b) None key (Some [102;105;108;101]) = c_raw C b F64.
+  Proof. intros. unfold read_signal, resolve. cbn. repeat split. Qed.
+
   (* wave files: header facts from the wave module, decoding proved *)
   Theorem wave_stream_roundtrip_l : forall b wd d c T samples dtype key,
     c_wave C b = Ok (mk_wave wd c (wave_encode wd samples)) ->
